@@ -1,9 +1,102 @@
-import GS.Model.RespLifecycle
-/-! C23 property theorems (being filled in). -/
+import GSProofs.Lemmas.RespLifeReach
+/-!
+# C23 — Reported request state agrees with the work queue when quiescent   (responder side)
+
+Model: `GS.RespLife`.  `PeerState(p)` of the response manager reports the table entries of `p`
+(`State.table`) next to the peer's task-queue topics (`PeerQ.pending`, `PeerQ.active`).
+
+-- FULL STATEMENT (C23.agree) — STATED, NOT PROVED in Lean.  It is checked on every run by the
+-- correspondence stream `peerstate` (model and real code agree on PeerState at every barrier) and by the
+-- independent oracle (Diagnostics() empty, state/queue agreement, final Stats):
+--   theorem agree : ReachableFresh limit s → quiescent s = true → agrees s = true
+-- FULL STATEMENT (C23.final), likewise:
+--   theorem final : ReachableFresh limit s → quiescent s = true → s.table = [] →
+--     (∀ q ∈ s.queues, q.pending = [] ∧ q.active = []) ∧ (∀ m ∈ s.mqs, idle m → m.allocated = 0)
+-- The invariant needed couples request states, task-queue sets, worker phases, mailbox contents and
+-- the terminal statuses queued in message builders; only its registry part (`PInv`) is proved so far.
+
+What IS proved here:
+* `reported_states_well_defined`: with fresh ids the table has one entry per id, so the reported
+  RequestStates map is well defined and every reported request is protected (registry invariant);
+* `agree_counterexample_dup`: without fresh ids agreement fails in a quiescent state — a new request
+  re-using the id of a running one is reported Queued while its topic is active and not pending
+  (known finding `dup-live-id-queue`, replayed by corpus/C23);
+* `agree_on_lifecycle` / `final_on_lifecycle`: the executable predicates evaluated on concrete
+  lifecycles (these are tests of the definitions, labelled as such, not proofs of the property).
+-/
 namespace GS.C23
 open GS.RespLife
 
-/-- placeholder while the invariants are being proved: the initial state has an empty table -/
-theorem init_table (limit : Nat) : (init limit).table = [] := rfl
+/-- mailboxes empty, manager not parked, no worker between PopTasks and StartTask or waiting for a
+    manager reply, publishers idle -/
+def quiescent (s : State) : Bool :=
+  s.mailbox.isEmpty && s.park.isNone &&
+  s.workers.all (fun w => match w.phase with
+    | .atLoader | .inHook _ _ | .blockedTx _ _ _ | .done => true
+    | _ => false) &&
+  s.mqs.all (fun m => m.pubQ.isEmpty && !m.pubWait)
+
+/-- Queued ↔ pending, Running ↔ active, Paused / CompletingSend in neither; every queue topic has a
+    table entry of that peer -/
+def agrees (s : State) : Bool :=
+  s.table.all (fun r =>
+    let q := getQ s r.peer
+    let pend := q.pending.any (·.1 == r.id)
+    let act := q.active.contains r.id
+    match r.state with
+    | .queued => pend && !act
+    | .running => act && !pend
+    | _ => !pend && !act) &&
+  s.queues.all (fun q =>
+    q.pending.all (fun t => s.table.any (fun r => r.id == t.1 && r.peer == q.peer)) &&
+    q.active.all (fun i => s.table.any (fun r => r.id == i && r.peer == q.peer)))
+
+/-- with fresh ids the table holds at most one entry per request id (so `RequestStates`, a map keyed
+    by id, reports every entry), and every reported request holds its connection protection -/
+theorem reported_states_well_defined {limit : Nat} {s : State} (h : ReachableFresh limit s) :
+    (s.table.map (·.id)).Nodup ∧ ∀ r ∈ s.table, (r.peer, r.id) ∈ s.prot := by
+  have hinv := pinv_reachable h
+  refine ⟨by simpa [pi, keys, List.map_map, Function.comp_def] using hinv.nodupIds, ?_⟩
+  intro r hr
+  exact (hinv.protIff (r.peer, r.id)).2 (Or.inl (List.mem_map.2 ⟨r, hr, rfl⟩))
+
+def cfgA (n : Nat) : ReqCfg := { pri := 1, hook := ⟨.accept, false⟩, n, miss := none, bh := [] }
+
+/-- a new request re-uses the id of a running response of the same peer -/
+def dupRunningScript : List Action :=
+  [.recv 0 (.new 0 (cfgA 2)), .mgr, .pop 0 0, .mgr, .wstep 0 0,    -- request 0 running, worker at its first block
+   .recv 0 (.new 0 (cfgA 2)), .mgr]                                 -- same id again: entry replaced, task push skipped
+
+/-- **C23.agree_counterexample** (ids not fresh): a reachable quiescent state in which the reported
+    state (Queued) disagrees with the task queue (topic active, not pending). -/
+theorem agree_counterexample_dup :
+    ∃ s, Reachable 0 s ∧ quiescent s = true ∧ agrees s = false :=
+  ⟨run (init 0) dupRunningScript, reachable_run Reachable.init _, by decide, by decide⟩
+
+/-- a full lifecycle with pause, unpause, cancel of a second request, acknowledgements -/
+def lifecycle : List Action :=
+  [.primer 0, .extract 0,
+   .recv 0 (.new 0 { (cfgA 2) with bh := [.pause, .ok] }), .mgr,
+   .recv 0 (.new 1 (cfgA 1)), .mgr,
+   .pop 0 0, .mgr, .wstep 0 0, .wstep 0 0, .mgr,        -- block 0 sent, paused by the block hook
+   .api (.unpause 0 false), .mgr,
+   .recv 0 (.cancel 1), .mgr,
+   .thaw,                                                -- cancelling a queued task froze the peer
+   .pop 0 0, .mgr, .wstep 1 0, .wstep 1 0, .mgr,        -- resumed: block 1, finished
+   .net 0 true, .extract 0, .net 0 true, .pub 0, .pub 0, .mgr, .pub 0]
+
+/-- TEST of the definitions (not a proof of the property): agreement holds at every prefix of the
+    lifecycle that is quiescent -/
+theorem agree_on_lifecycle :
+    (List.range (lifecycle.length + 1)).all (fun n =>
+      let s := run (init 0) (lifecycle.take n)
+      !quiescent s || agrees s) = true := by decide
+
+/-- TEST: at the end everything is retired, nothing is pending, active or allocated -/
+-- TMP
+theorem final_on_lifecycle :
+    let s := run (init 0) lifecycle
+    quiescent s = true ∧ s.table = [] ∧ s.queues.all (fun q => q.pending.isEmpty && q.active.isEmpty) = true ∧
+      s.mqs.all (fun m => m.allocated == 0) = true := by decide
 
 end GS.C23
